@@ -109,11 +109,11 @@ static struct fdinfo g_fds[MAXFD];
 
 enum kind {
   K_OPENR, K_OPENW, K_OPENDIR, K_READ, K_WRITE, K_READDIR, K_SHORT_READ, K_SHORT_WRITE,
-  K_EINTR_READ, K_EINTR_WRITE, K_EINTR_OPEN, K_CLOCKJUMP, K_CRASH, K_RENAME, K_NKINDS
+  K_EINTR_READ, K_EINTR_WRITE, K_EINTR_OPEN, K_CLOCKJUMP, K_CRASH, K_RENAME, K_STATSIZE, K_NKINDS
 };
 static const char *kind_names[] = {"openr", "openw", "opendir", "read", "write", "readdir",
                                    "short_read", "short_write", "eintr_read", "eintr_write",
-                                   "eintr_open", "clockjump", "crash", "rename"};
+                                   "eintr_open", "clockjump", "crash", "rename", "statsize"};
 struct rule {
   int kind;
   char sel[RELMAX];
@@ -208,7 +208,7 @@ static void parse_plan(const char *plan) {
     if (when[0] == '+') { r->by_offset = 1; r->when = atol(when + 1); }
     else r->when = atol(when);
     switch (r->kind) {
-      case K_SHORT_READ: case K_SHORT_WRITE: case K_CLOCKJUMP: case K_CRASH:
+      case K_SHORT_READ: case K_SHORT_WRITE: case K_CLOCKJUMP: case K_CRASH: case K_STATSIZE:
         r->arg = atol(arg); break;
       case K_EINTR_READ: case K_EINTR_WRITE: case K_EINTR_OPEN:
         r->arg = EINTR; break;
@@ -720,6 +720,42 @@ int closedir(DIR *d) {
   return real_closedir(d);
 }
 
+/* ------------------------------------------------------------------ stat: the size a file claims to have
+ * `statsize:<path>:0:<n>`: every stat of a matching in-world file reports st_size = n, as special
+ * files do (a FIFO, procfs: size 0 whatever they contain) or as happens when a file grows between
+ * the stat and the read. A reader has to read to end of file; the reported size is a hint. */
+#include <linux/stat.h>
+static int (*real_statx)(int, const char *, int, unsigned int, struct statx *);
+int statx(int dirfd, const char *path, int flags, unsigned int mask, struct statx *buf) {
+  vsim_init();
+  if (!real_statx) real_statx = dlsym(RTLD_NEXT, "statx");
+  int r = real_statx ? real_statx(dirfd, path, flags, mask, buf) : (int)real_syscall(SYS_statx, dirfd, path, flags, mask, buf);
+  if (r != 0 || !g_world || !buf || !S_ISREG(buf->stx_mode)) return r;
+  int e = errno;
+  char rel[RELMAX];
+  int have = 0;
+  if ((!path || !path[0]) && (flags & AT_EMPTY_PATH)) {
+    if (dirfd >= 0 && dirfd < MAXFD && g_fds[dirfd].used && g_fds[dirfd].rel[0] != '@') { snprintf(rel, RELMAX, "%s", g_fds[dirfd].rel); have = 1; }
+  } else if (path) {
+    have = world_rel(dirfd, path, rel);
+  }
+  if (have) {
+    pthread_mutex_lock(&g_lock);
+    for (int i = 0; i < g_nrules; i++) {
+      struct rule *ru = &g_rules[i];
+      if (ru->kind != K_STATSIZE || !sel_match(ru, rel)) continue;
+      event_begin("statsize", rel);
+      ru->fired = 1;
+      trace_line("statsize", rel, (long)buf->stx_size, ru->arg, 0, i);
+      buf->stx_size = (unsigned long long)ru->arg;
+      break;
+    }
+    pthread_mutex_unlock(&g_lock);
+  }
+  errno = e;
+  return r;
+}
+
 /* ------------------------------------------------------------------ mutating path calls: logged only */
 #define LOG_PATH_CALL(sym, dirfd, path, call)                         \
   do {                                                                \
@@ -892,5 +928,6 @@ long syscall(long number, ...) {
    * single threaded, so a constant keeps message lengths - and with them the event trace -
    * a pure function of the seed */
   if (g_world && (number == SYS_gettid || number == SYS_getpid)) return 4242;
+  if (g_world && number == SYS_statx) return statx((int)a1, (const char *)a2, (int)a3, (unsigned int)a4, (struct statx *)a5);
   return real_syscall(number, a1, a2, a3, a4, a5, a6);
 }
